@@ -112,6 +112,12 @@ def evaluate(term, inputs, env=None, prims=None):
             return bytes(out)
         if op == "h64char":
             return bytes([H64[t[1]]])
+        if op == "h64int":
+            v, out = t[1], bytearray()
+            for _ in range(t[2]):
+                out.append(H64[v & 63])
+                v >>= 6
+            return bytes(out)
         if op == "select":
             data = ev(t[1])
             return bytes(data[i] for i in t[2])
